@@ -141,7 +141,8 @@ FUNCTIONS['EXP'] = wrap_ufunc(np.exp)
 def xfact(number, fact=math.factorial, limit=0):
     if number < limit or number >= 171 + 130 * (limit < 0):
         return np.nan  # Out of the domain or beyond the range of a double.
-    return int(fact(int(number or 0)))
+    res = fact(int(number or 0))
+    return int(res) if res < 2 ** 53 else float(res)
 
 
 FUNCTIONS['FACT'] = wrap_ufunc(xfact)
